@@ -85,7 +85,9 @@ func (rf *ReportFeed) Status() []byte {
 	// displayed as non-RTCM messages.)
 	messageDisplay := "\nMessages\n\n"
 	for _, message := range rf.RecentMessages.GetMessages() {
-		messageDisplay += message.String() + "\n"
+		// The display of a message includes a dump of data that came from
+		// the client, so it must be sanitised like the buffer dumps above.
+		messageDisplay += Sanitise(message.String()) + "\n"
 	}
 
 	reportBody := fmt.Sprintf(reportFormat,
